@@ -35,6 +35,21 @@ def gen(tier, rng):
             if idx:
                 i = rng.choice(idx); e3[i] = rng.choice([0x03, 0x05, 0x0c, 0x30, 0x23, 0x84, 0xa4])
                 out.append("os.views %s %s" % (rng.choice(modes), hx(bytes(e3))))
+    # use as a decoding source: same outcome as decoding the content from a slice
+    import scripts
+    for _ in range(1500 if tier == "quick" else 15000):
+        m, d, sc = scripts.case(rng, mutate_p=0.15)
+        base = "run %s slice %s %s" % (m, hx(d), sc)
+        out.append(base)
+        for k in (0, 1, 2, 3, 7):
+            r = "run %s osrc%d %s %s" % (m, k, hx(d), sc)
+            out.append(r); SRC[r] = base
+    for (m, d, sc) in scripts.leaf_battery(rng, 600 if tier == "quick" else 6000):
+        base = "run %s slice %s %s" % (m, hx(d), sc)
+        out.append(base)
+        for k in (1, 2, 3):
+            r = "run %s osrc%d %s %s" % (m, k, hx(d), sc)
+            out.append(r); SRC[r] = base
     # CER segment vectors
     L = [0, 1, 999, 1000, 1001]
     for k in (1, 2, 3) if tier == "quick" else (1, 2, 3, 4):
@@ -50,6 +65,24 @@ def gen(tier, rng):
     out.append("os.views cer %s" % hx(os_cons([], True)))
     out.append("os.views cer %s" % hx(os_cons([], False)))
     return out
+
+SRC = {}
+def canon(req, ans):
+    import scripts
+    return scripts.canon_rest(req, ans)
+
+def relational(reqs, answers):
+    import re
+    fails = []
+    idx = {r: a for r, a in zip(reqs, answers)}
+    for r, base in SRC.items():
+        a, b = idx.get(r), idx.get(base)
+        if a is None or b is None:
+            continue
+        b2 = re.sub(r" \| rest=[0-9?]+", "", b) if b.startswith("ok") else b
+        if a != b2:
+            fails.append({"request": r, "impl": a, "spec": "an octet string used as a source presents exactly its content: same outcome as over a slice: " + b})
+    return fails
 
 def nontrivial(req, ans):
     return ans.startswith("ok")
